@@ -725,12 +725,10 @@ class Fxp():
             else:
                 vdtype = type(val.item(0))
             
-            try:
-                if isinstance(val, np.float128):
-                    val = np.array(float(val))
-            except:
-                # by now it is just an extra test, not critical
-                pass
+            if isinstance(val, np.longdouble) and not isinstance(val, np.float64):
+                # an extended-precision scalar: a 0-d array of its own type (an array of that type is quantized exactly, a conversion
+                # to float would round the value to a double before the configured rounding)
+                val = np.array(val)
 
             if np.issubdtype(val.dtype, np.str_):
                 # if val is a str(s), convert to number(s)
@@ -790,6 +788,8 @@ class Fxp():
         if vdtype is not None and not (isinstance(vdtype, type) and vdtype in (int, float, complex)):
             try:
                 _kind = np.dtype(vdtype).kind
+                if _kind in ('f', 'c') and np.dtype(vdtype).itemsize > (8 if _kind == 'f' else 16):
+                    _kind = None        # (extended precision carriers keep their type: a cast to float would round the values)
             except TypeError:
                 _kind = None
             if _kind == 'O' and val.size > 0:
